@@ -31,8 +31,10 @@ PROVED = {
     'ShardAccounts': ('block', 'ShardAccounts', 'c16_src_ShardAccounts', 'blk'),
     'OldMcBlocksInfo': ('block', 'OldMcBlocksInfo', 'c16_src_OldMcBlocksInfo', 'blk'),
     'BlockCreateStats': ('block', 'BlockCreateStats', 'c16_src_BlockCreateStats', 'blk'),
+    'ConfigParams': ('block', 'ConfigParams', 'c16_src_ConfigParams', 'blk'),
+    'McStateExtra': ('block', 'McStateExtra', 'c16_src_McStateExtra', 'blk'),
 }
-N_VALIDATE = {'BlockInfo': 16, 'ConsensusConfig': 12}
+N_VALIDATE = {'BlockInfo': 16, 'ConsensusConfig': 12, 'McStateExtra': 8}
 
 
 def label(cls):
